@@ -203,7 +203,9 @@ V("C11", "clip-wrong-axis", SAMP, "        iy = np.clip(iy, 0, ny - 1)\n\n      
 V("C11", "planet-leftward", SAMP, "        lon = (lon + np.pi) % TWOPI - np.pi  # ensure in range [-pi, pi]\n        ix = (lon - lon0) * dx", "        lon = (lon + np.pi) % TWOPI - np.pi  # ensure in range [-pi, pi]\n        ix = (-lon0 - lon) * dx", "C11.R4")
 V("C11", "no-wrap", SAMP, "        lon = lon % TWOPI  # ensure in range [0, 2pi]\n        ix = (lon - lon0) * dx", "        ix = (lon - lon0) * dx", "C11.R2")
 V("C11", "truncate", SAMP, "        lon = lon % TWOPI  # ensure in range [0, 2pi]\n        ix = (lon - lon0) * dx\n        ix = np.round(ix).astype(int)", "        lon = lon % TWOPI  # ensure in range [0, 2pi]\n        ix = (lon - lon0) * dx\n        ix = ix.astype(int)", "C11.R1")
-V("C11", "galactic-no-rotation", SAMP, "        gal = ICRS(lon * u.rad, lat * u.rad).transform_to(Galactic)\n        lon, lat = gal.l.rad, gal.b.rad\n", "", "C11.R")
+V("C11", "galactic-no-rotation", SAMP, "        gal = ICRS(lon * u.rad, lat * u.rad).transform_to(Galactic())\n        lon, lat = gal.l.rad, gal.b.rad\n", "", "C11.R")
+V("C11", "galactic-frame-class", SAMP, ".transform_to(Galactic())", ".transform_to(Galactic)", "C11.R5", "F14: the frame class instead of an instance (ConvertError on every call)")
+V("C11", "P-galactic-frame-local", SAMP, "        gal = ICRS(lon * u.rad, lat * u.rad).transform_to(Galactic())\n", "        frame = Galactic()\n        gal = ICRS(lon * u.rad, lat * u.rad).transform_to(frame)\n", "HOLDS")
 V("C11", "lat-flipped", SAMP, "    lat0 = HALFPI - 0.5 / dy  # latitudes of the centers of the pixels with iy = 0\n\n    def vec2pix(lon, lat):\n        lon = lon % TWOPI  # ensure in range [0, 2pi]\n        ix = (lon0 - lon) * dx", "    lat0 = -HALFPI + 0.5 / dy  # latitudes of the centers of the pixels with iy = 0\n\n    def vec2pix(lon, lat):\n        lon = lon % TWOPI  # ensure in range [0, 2pi]\n        ix = (lon0 - lon) * dx", "C11.R3")
 V("C11", "P-equivalent-algebra", SAMP, "        lon = lon % TWOPI  # ensure in range [0, 2pi]\n        ix = (lon - lon0) * dx\n        ix = np.round(ix).astype(int)\n        ix = np.clip(ix, 0, nx - 1)", "        wrapped = np.mod(lon, 2 * np.pi)\n        ix = wrapped * nx / (2 * np.pi) - 0.5\n        ix = np.clip(np.round(ix).astype(int), 0, nx - 1)", "HOLDS")
 V("C11", "P-shift-3pi", SAMP, "        lon = (lon + np.pi) % TWOPI - np.pi  # ensure in range [-pi, pi]\n        ix = (lon - lon0) * dx", "        lon = (lon + 3 * np.pi) % TWOPI - np.pi  # ensure in range [-pi, pi]\n        ix = (lon - lon0) * dx", "HOLDS")
